@@ -314,6 +314,8 @@ class CallMixin:
                 "random.randint": "int", "random.uniform": "float", "copy.deepcopy": None,
                 "builtins.sorted": "list", "builtins.hash": "int", "builtins.abs": None,
                 "builtins.chr": "str"}.get(name)
+        if name == "builtins.round" and len(args) >= 2:
+            kind = "float"
         return Term("call", (name,) + tuple(a for a in args if isinstance(a, V)), kind=kind, node=node)
 
     def x_isinstance(self, args: List[V], kwargs: Dict[str, V], node: Any) -> Optional[V]:
